@@ -20,16 +20,17 @@
    gen_metadata / gen_ebuild_env) — the only states with free choices (key, receive_env,
    request_inherit, request_bashrcs, an IPC helper call, __request_sandbox_summary, finish, die);
    SInh1/SInh2 __internal_inherit; SRc1/SRc2 __source_bashrcs; SIpcW __ebd_ipc_cmd; SSbx
-   __request_sandbox_summary; SDying (die: "dying", free text, "dead"; in a subshell the main loop
-   then reports "phases failed" and goes on, in the main shell the daemon exits); SDead.
+   __request_sandbox_summary; SDead.  die() is one step: "dying", "dead" (the free text between
+   them is stderr, dropped from traces); in the subshell of a phase the main loop then reports
+   "phases failed" and goes on, in the main shell the daemon exits.
    A read and the reply lines it causes are one step (nothing else can happen in between).
    SIGINT/SIGTERM: one notice line, then the daemon is gone.
 
    Python (pstate/prog): public operations are straight-line programs over write / expect (sync or
    queued in _outstanding_expects) / _consume_async_expects / read / generic_handler; every read
    intercepts SIGINT, SIGTERM, dying (readlines).  run_phase is modelled WITH the repair
-   fixes/C35-env-failure-drain.patch (the "phases failed" line that follows env_receiving_failed is
-   consumed).  After an UnhandledCommand/InternalError the session is in PErr: only cleanup
+   fixes/C35-env-failure-drain.patch (outstanding async expects are collected first; the
+   "phases failed" line that follows env_receiving_failed is consumed).  After an UnhandledCommand/InternalError the session is in PErr: only cleanup
    (timed probes, kill) happens there.
 
    Outside the model: OS pipe buffering, EPIPE, signal delivery and the 10 s alarm of
@@ -311,15 +312,19 @@ Inductive rk := KPhase | KMeta | KEnv.
 Inductive sstate :=
 | SInit0 | SInit1 | SMain | SSetup
 | SRun (k : rk) | SInh1 (k : rk) | SInh2 (k : rk) | SRc1 | SRc2 | SIpcW | SSbx (k : rk)
-| SDying (sub : bool) | SDead.
+| SDead.
 
 Definition sh_reads (s : sstate) : bool :=
-  match s with SRun _ | SDying _ | SDead => false | _ => true end.
+  match s with SRun _ | SDead => false | _ => true end.
 
 (* reaction of a reading daemon to one line: next state and the lines it writes *)
 Definition sreact (s : sstate) (c0 : cmd) (fate : bool) : option (sstate * list rep) :=
   let c := see c0 in
-  let die sub := Some (SDying sub, [tok RDying]) in
+  (* die: "dying", free text (stderr, not protocol lines: dropped from traces), "dead"; in the
+     subshell of a phase the main loop then reports the failed phase and goes on, in the main shell
+     the daemon exits *)
+  let die (sub : bool) := if sub then Some (SMain, [tok RDying; tok RDead; tok RPhasesFail])
+                          else Some (SDead, [tok RDying; tok RDead]) in
   match s with
   | SInit0 => match c with CEbdQ => Some (SInit1, [reply CEbdQ true]) | _ => Some (SDead, []) end
   | SInit1 => match c with
@@ -353,16 +358,16 @@ Definition sreact (s : sstate) (c0 : cmd) (fate : bool) : option (sstate * list 
   | SRc1 => match c with
             | CEndRequest => Some (SRun KPhase, [])
             | CPath | CTransfer => Some (SRc2, [])
-            | _ => Some (SDying true, [tok RFailed; tok RDying])
+            | _ => Some (SMain, [tok RFailed; tok RDying; tok RDead; tok RPhasesFail])
             end
   | SRc2 => Some (SRc1, [tok RNext])
   | SIpcW => Some (SRun KPhase, [])
   | SSbx k => match c with CEndSbx => Some (SRun k, []) | _ => Some (SSbx k, []) end
-  | SRun _ | SDying _ | SDead => None
+  | SRun _ | SDead => None
   end.
 
 (* free choices of a running / dying daemon *)
-Inductive emit := EKey | ERecvEnv | EInherit | EBashrc | EIpc | ESbx | EFinish (ok : bool) | EDie | EText | EDead.
+Inductive emit := EKey | ERecvEnv | EInherit | EBashrc | EIpc | ESbx | EFinish (ok : bool) | EDie.
 Definition semit (s : sstate) (e : emit) : option (sstate * list rep) :=
   match s, e with
   | SRun KMeta, EKey => Some (s, [tok RKey])
@@ -372,10 +377,7 @@ Definition semit (s : sstate) (e : emit) : option (sstate * list rep) :=
   | SRun KPhase, EIpc => Some (SIpcW, [RIpc; RLine; RLine; RLine; RLine; RLine])
   | SRun k, ESbx => Some (SSbx k, [tok RReqSbx])
   | SRun _, EFinish ok => Some (SMain, [tok (if ok then RPhasesOk else RPhasesFail)])
-  | SRun _, EDie => Some (SDying true, [tok RDying])
-  | SDying _, EText => Some (s, [RLine])
-  | SDying true, EDead => Some (SMain, [tok RDead; tok RPhasesFail])
-  | SDying false, EDead => Some (SDead, [tok RDead])
+  | SRun _, EDie => Some (SMain, [tok RDying; tok RDead; tok RPhasesFail])
   | _, _ => None
   end.
 Definition signalable (s : sstate) : bool :=
@@ -420,9 +422,10 @@ Definition prog_of (o : op) : prog :=
   | OEnv sm n => depend_prog CGenEnv HEnv sm n
   | ORunPhase lg =>
       let p := Wr CStartProc (Handle HPhase (Done true)) in
-      Wr CProcess (Req CStartEnv false
+      let body := Wr CProcess (Req CStartEnv false
                        (Wr CSetSandbox (if lg then Req CLogging false p (Done false) else p))
-                       (Rd (Done false)))
+                       (Rd (Done false))) in
+      Cons body body
   | ORaw => Wr COther (Done true)
   end.
 Definition init_prog (sandbox : bool) : prog :=
@@ -695,11 +698,6 @@ Definition emit_for (s : sstate) (r : rep) : option label :=
       else if rep_eqb r (tok RSigint) then Some (LShSig false)
       else if rep_eqb r (tok RSigterm) then Some (LShSig true)
       else None
-  | SDying _ =>
-      if rep_eqb r (tok RDead) then Some (LShEmit EDead)
-      else if rep_eqb r RLine then Some (LShEmit EText)
-      else None
-  | SDead => None
   | _ => None
   end.
 
@@ -733,8 +731,7 @@ with step_daemon (fuel : nat) (c : conf) (want : option rep) (acc : list label) 
       else
         match want with
         | Some r => match emit_for (sh c) r with Some l => go l | None => None end
-        | None =>    (* EOF: a dying main shell finishes dying; nothing else ends silently *)
-            match sh c with SDying false => go (LShEmit EDead) | _ => None end
+        | None => None
         end
   end.
 
@@ -859,7 +856,17 @@ Fixpoint parse_recs (ls : list str) : option (list obs) :=
                 | _, _ => None
                 end
   end.
-Definition parse_trace (s : str) : option (list obs) := parse_recs (split_nl s []).
+(* the lines between "dying" and "dead" are die()'s stderr, not protocol lines *)
+Fixpoint strip_die_text (inside : bool) (os : list obs) : list obs :=
+  match os with
+  | [] => []
+  | OR RDying :: os' => OR RDying :: strip_die_text true os'
+  | OR RDead :: os' => OR RDead :: strip_die_text false os'
+  | OR r :: os' => if inside then strip_die_text inside os' else OR r :: strip_die_text inside os'
+  | o :: os' => o :: strip_die_text false os'
+  end.
+Definition parse_trace (s : str) : option (list obs) :=
+  match parse_recs (split_nl s []) with Some os => Some (strip_die_text false os) | None => None end.
 
 Definition run_trace (s : str) : val :=
   match parse_trace s with
